@@ -79,11 +79,21 @@ def guard_leave_rule(rep, r3, m, dequeue_only=False):
             still = False
         if still:
             return
-        withdraw = any(c[1] == "cmb_event_pattern_cancel" and len(c[2]) >= 2 and c[2][1] == "cmb_process_current()"
-                       for c in calls)
+        # the withdrawal covers every wake-up the guard can have sent the process (a grant with the success code, a
+        # cancellation with the cancelled code): the value slot is the wildcard
+        withdraw = any(c[1] == "cmb_event_pattern_cancel" and len(c[2]) >= 3 and c[2][1] == "cmb_process_current()" and
+                       re.search(r"18446744073709551615|ANY|^-1$", c[2][2]) for c in calls)
+        narrow = [c for c in calls if c[1] == "cmb_event_pattern_cancel" and len(c[2]) >= 3 and c[2][1] == "cmb_process_current()"
+                  and not re.search(r"18446744073709551615|ANY|^-1$", c[2][2])]
         handover = any(c[1] == "cmb_resourceguard_signal" and c[2][0] == rg for c in calls)
         rep.sample({"rule": "R-C08-3", "path": TR.fmt(tr, 10), "withdraw": withdraw, "handover": handover})
-        if not withdraw:
+        if not withdraw and narrow:
+            rep.finding(r3, w.name, "leave:withdraw-narrow", "on a path where the leaving waiter was no longer queued the pending "
+                        "wake-up is withdrawn only if it carries the value %s: a wake-up sent with another code in the same "
+                        "instant (a cancellation of the waiter that coincides with its time-out) stays scheduled and resumes "
+                        "the process out of an unrelated wait" % narrow[0][2][2], where=where)
+            r3.fail()
+        elif not withdraw:
             rep.finding(r3, w.name, "leave:no-withdraw", "on a path where the leaving waiter was no longer queued (grant "
                         "pending) the pending wake-up is not withdrawn: it later resumes the process out of an unrelated "
                         "wait", where=where)
